@@ -155,4 +155,127 @@ theorem mem_delivered (links : Option LinkFn) (srcs : List (Nat × Src)) (p : Na
   · rintro ⟨i, s, r, hq, hr, rfl⟩
     exact ⟨(i, s), hq, r, hr, rfl⟩
 
+/-! ### after the final error -/
+
+theorem catRead_fin_again (links : Option LinkFn) :
+    ∀ (rs rs' : List (Nat × Src)) (t : Term), catRead links rs = (.fin t, rs') → catRead links rs' = (.fin t, rs')
+  | [], rs', t, h => by
+    simp only [catRead, Prod.mk.injEq, Out.fin.injEq] at h
+    obtain ⟨rfl, rfl⟩ := h
+    rfl
+  | (id, s) :: rest, rs', t, h => by
+    unfold catRead at h
+    cases hr : s.read with
+    | got r s' => rw [hr] at h; simp at h
+    | stop tt =>
+      rw [hr] at h
+      cases tt with
+      | eof => exact catRead_fin_again links rest rs' t h
+      | err e =>
+        simp only [Prod.mk.injEq, Out.fin.injEq] at h
+        obtain ⟨rfl, rfl⟩ := h
+        unfold catRead
+        rw [hr]
+
+/-- once `Read` has returned an error it keeps returning that error and no record -/
+theorem read_fin_again (H : Heap) (m m' : Merger) (t : Term) (h : m.read H = (.fin t, m')) :
+    m'.read H = (.fin t, m') := by
+  obtain ⟨links, mode⟩ := m
+  cases mode with
+  | cat rs =>
+    unfold Merger.read at h
+    simp only at h
+    cases hc : catRead links rs with
+    | mk o rs' =>
+      rw [hc] at h
+      simp only [Prod.mk.injEq] at h
+      obtain ⟨rfl, rfl⟩ := h
+      unfold Merger.read
+      simp only [catRead_fin_again links rs rs' t hc]
+  | sorted less heap err =>
+    unfold Merger.read at h
+    simp only at h
+    have hs : sortedRead H links less heap err = (.fin t, (heap, err)) := by
+      unfold sortedRead at h ⊢
+      cases hp : H.pop (heapLess less) heap with
+      | none =>
+        rw [hp] at h
+        simp only [Prod.mk.injEq] at h
+        rw [h.1]
+      | some xr =>
+        rw [hp] at h
+        obtain ⟨x, rest⟩ := xr
+        simp only at h
+        cases hr : x.src.read with
+        | got r s' => rw [hr] at h; simp at h
+        | stop tt => rw [hr] at h; cases tt <;> simp at h
+    rw [hs] at h
+    simp only [Prod.mk.injEq] at h
+    obtain ⟨_, rfl⟩ := h
+    unfold Merger.read
+    simp only [hs]
+
+/-! ### when NewMerger fails -/
+
+theorem newMerger_noSource (custom : Option Less) (linkFn : LinkFn) (inputs : List Input) :
+    newMerger custom linkFn inputs = .error .noSource ↔ inputs = [] := by
+  unfold newMerger
+  cases inputs with
+  | nil => simp
+  | cons i0 tl =>
+    simp only
+    split
+    · cases chooseLess i0.so custom <;> simp
+    · simp
+
+theorem newMerger_mismatch (custom : Option Less) (linkFn : LinkFn) (inputs : List Input) :
+    newMerger custom linkFn inputs = .error .sortOrderMismatch ↔
+      ∃ i0 tl, inputs = i0 :: tl ∧ ∃ inp, inp ∈ inputs ∧ inp.so ≠ i0.so := by
+  unfold newMerger
+  cases inputs with
+  | nil => simp
+  | cons i0 tl =>
+    simp only
+    split
+    · rename_i hall
+      cases chooseLess i0.so custom <;> simp
+      all_goals
+        intro inp hinp
+        have := List.all_eq_true.1 hall inp (List.mem_cons_of_mem _ hinp)
+        simpa using this
+    · rename_i hall
+      simp only [List.cons.injEq, true_iff]
+      refine ⟨i0, tl, ⟨rfl, rfl⟩, ?_⟩
+      simp only [List.all_eq_true, beq_iff_eq] at hall
+      obtain ⟨inp, hinp⟩ := Classical.not_forall.1 hall
+      obtain ⟨hmem, hne⟩ := Classical.not_imp.1 hinp
+      exact ⟨inp, hmem, hne⟩
+
+/-! ### sortedness can be checked on neighbours -/
+
+def AdjSorted {α : Type} (lt : α → α → Bool) : List α → Prop
+  | [] => True
+  | [_] => True
+  | a :: b :: rest => lt b a = false ∧ AdjSorted lt (b :: rest)
+
+theorem adjSorted_iff {α : Type} (lt : α → α → Bool) (sw : StrictWeak lt) :
+    ∀ l : List α, AdjSorted lt l ↔ SortedBy lt l
+  | [] => by simp [AdjSorted, SortedBy]
+  | [a] => by simp [AdjSorted, SortedBy]
+  | a :: b :: rest => by
+    have ih := adjSorted_iff lt sw (b :: rest)
+    unfold AdjSorted
+    rw [ih]
+    unfold SortedBy
+    constructor
+    · rintro ⟨hba, hs⟩
+      refine List.pairwise_cons.2 ⟨?_, hs⟩
+      intro c hc
+      cases hc with
+      | head => exact hba
+      | tail _ hc => exact sw.negTrans _ _ _ ((List.pairwise_cons.1 hs).1 c hc) hba
+    · intro h
+      obtain ⟨h1, h2⟩ := List.pairwise_cons.1 h
+      exact ⟨h1 b List.mem_cons_self, h2⟩
+
 end Hts.Model.Merger
